@@ -30,7 +30,7 @@ def outOfScope (r : Request) (e : Entry) : Prop :=
   inScope P r e = false ∧ inScopeSimple P r e = false ∧ renameCandidate P r e = false
 
 theorem outOfScope_of_not_walked (r : Request) (e : Entry)
-    (h : walked (P.cfgFor r) r.inGit r.ign r.ty e.path = false) : outOfScope r e := by
+    (h : walked (P.cfgFor r) r.site e.path = false) : outOfScope r e := by
   unfold outOfScope inScope inScopeSimple renameCandidate
   simp [h]
 
@@ -40,7 +40,7 @@ theorem outOfScope_of_not_walked (r : Request) (e : Entry)
     named `.git` at any depth is never scanned and never proposed for renaming. -/
 theorem git_never (r : Request) (e : Entry) (h : gitName ∈ e.path) : outOfScope r e := by
   apply outOfScope_of_not_walked
-  apply walked_false_of_filtered _ _ _ _ _ gitName h
+  apply walked_false_of_filtered _ _ _ gitName h
   exact cfg_all Gen.walker (fun c => c.filtered.contains gitName) (by decide) _
 
 -- .renamify -----------------------------------------------------------------------------------------------------
@@ -49,13 +49,14 @@ theorem git_never (r : Request) (e : Entry) (h : gitName ∈ e.path) : outOfScop
 theorem renamify_never (hfix : Gen.filtersRenamifyDir = true) (r : Request) (e : Entry) (h : renamifyName ∈ e.path) :
     outOfScope r e := by
   apply outOfScope_of_not_walked
-  apply walked_false_of_filtered _ _ _ _ _ renamifyName h
+  apply walked_false_of_filtered _ _ _ renamifyName h
   exact cfg_all Gen.walker (fun c => c.filtered.contains renamifyName) hfix _
 
 /-- a request with no ignore files and no globs on the tree  `.renamify/plans/x.json`  -/
 def bareRequest (level : Nat) : Request :=
-  { level := level, inGit := false, ign := fun _ _ => false, gm := Glob.matchesD,
-    ty := fun p => if p.length < 3 then .dir else .file, globs := { includes := [], excludes := [] } }
+  { level := level, gm := Glob.matchesD, globs := { includes := [], excludes := [] },
+    site := { gitAt := fun _ => false, ancGit := false, ign := fun _ _ => false, ignAbove := fun _ _ => false,
+              ty := fun p => if p.length < 3 then .dir else .file } }
 
 def statePlan : Entry := { path := [renamifyName, b!"plans", b!"x.json"], ftype := .file, content := b!"{\"search\": \"foo_bar\"}" }
 
@@ -122,15 +123,21 @@ theorem ignore_files_by_level (hfix : rgignoreCellsAgree = true) : ∀ l, l ≤ 
 /-- What a cell means for the pipeline: an honoured ignore file that matches the entry or any ancestor directory
     (`a ++ [n]` is a non-empty prefix of the path) puts the entry out of scope of all three planners. -/
 theorem ignored_out_of_scope (r : Request) (e : Entry) (k : IgnKind) (a : RelPath) (n : Name) (b : RelPath)
-    (hp : e.path = a ++ n :: b) (hk : honoured (P.cfgFor r) r.inGit k = true) (hi : r.ign k (a ++ [n]) = true) :
+    (hp : e.path = a ++ n :: b) (hk : honoured (P.cfgFor r) (inGitAt (P.cfgFor r) r.site a) k = true)
+    (hi : r.site.ign k (a ++ [n]) = true ∨ ((P.cfgFor r).parents = true ∧ r.site.ignAbove k (a ++ [n]) = true)) :
     outOfScope r e := by
   apply outOfScope_of_not_walked
   rw [hp]
-  exact walked_false_of_ignored _ _ _ _ a n b k hk hi
+  exact walked_false_of_ignored _ _ a n b k hk hi
 
 /-- a request whose only ignore rule is: kind `k` names `vendor` -/
 def vendorRequest (k : IgnKind) (level : Nat) : Request :=
-  { bareRequest level with ign := fun k' p => k' == k && p == [b!"vendor"] }
+  { bareRequest level with site := { (bareRequest level).site with ign := fun k' p => k' == k && p == [b!"vendor"] } }
+
+/-- the same rule, but the ignore file lives in an ancestor of the scan root (e.g. `renamify plan … src` with the
+    `.rnignore` in the project root) -/
+def vendorAboveRequest (k : IgnKind) (level : Nat) : Request :=
+  { bareRequest level with site := { (bareRequest level).site with ignAbove := fun k' p => k' == k && p == [b!"vendor"] } }
 
 def vendored : Entry := { path := [b!"vendor", b!"lib", b!"foo_bar.rs"], ftype := .file, content := b!"foo_bar" }
 
@@ -140,6 +147,28 @@ example : [0, 1, 2, 3].map (fun l => inScope P (vendorRequest .gitignore l) vend
 example : [0, 1, 2, 3].map (fun l => inScope P (vendorRequest .ignore l) vendored) = [false, false, true, true] := by decide
 /-- the legacy flag `respect_gitignore = false` at level 0 behaves as `-u` -/
 example : inScope P { vendorRequest .gitignore 0 with respectGitignore := false } vendored = true := by decide
+
+/-- Ignore files in ancestors of the scan root: `parents(…)` is switched on exactly at the levels at which the documents
+    say that some ignore file is honoured — so `-u` on a sub-directory still sees the project's `.ignore`/`.rnignore`. -/
+theorem parents_matches_docs : ∀ l, l ≤ 3 →
+    (Gen.walker.cfg l).parents = [IgnKind.gitignore, .ignore, .rgignore, .rnignore].any (fun k => doc k l == some true) := by
+  apply forall_le3 <;> decide
+
+/-- … and then an honoured ancestor ignore file matching the entry or one of its ancestors below the root puts the
+    entry out of scope (instance of `ignored_out_of_scope`) -/
+theorem ancestor_ignored_out_of_scope (r : Request) (e : Entry) (k : IgnKind) (a : RelPath) (n : Name) (b : RelPath)
+    (hp : e.path = a ++ n :: b) (hpar : (P.cfgFor r).parents = true)
+    (hk : honoured (P.cfgFor r) (inGitAt (P.cfgFor r) r.site a) k = true) (hi : r.site.ignAbove k (a ++ [n]) = true) :
+    outOfScope r e :=
+  ignored_out_of_scope r e k a n b hp hk (Or.inr ⟨hpar, hi⟩)
+
+example : [0, 1, 2, 3].map (fun l => inScope P (vendorAboveRequest .rnignore l) vendored) = [false, false, true, true] := by decide
+example : [0, 1, 2, 3].map (fun l => inScope P (vendorAboveRequest .ignore l) vendored) = [false, false, true, true] := by decide
+example : [0, 1, 2, 3].map (fun l => inScope P (vendorAboveRequest .gitignore l) vendored) = [false, true, true, true] := by decide
+/-- `.git/info/exclude` of a repository whose `.git` is in an ANCESTOR of the root: consulted at level 0 only (the ignore
+    crate tracks ancestor repositories only while git_ignore is on) — outside the property's list of ignore files -/
+example : [0, 1, 2].map (fun l => inScope P { vendorAboveRequest .gitExclude l with
+    site := { (vendorAboveRequest .gitExclude l).site with ancGit := true } } vendored) = [false, true, true] := by decide
 
 /-- today: a directory named in `.rgignore` stays in scope at levels 0 and 1 -/
 theorem rgignore_pipeline_or_witness :
@@ -172,7 +201,7 @@ theorem binary_below_3 (r : Request) (e : Entry) (hl : r.level < 3)
 
 /-- From level 3 on the sniff plays no role. -/
 theorem binary_at_3 (r : Request) (e : Entry) (hl : 3 ≤ r.level) :
-    inScope P r e = (walked (P.cfgFor r) r.inGit r.ign r.ty e.path && isFileFor P.scanFollows e && globsOk P.G r.gm r.globs e.path) := by
+    inScope P r e = (walked (P.cfgFor r) r.site e.path && isFileFor P.scanFollows e && globsOk P.G r.gm r.globs e.path) := by
   have ht : P.binaryAsText r.level = true := (binaryAsText_iff r.level).mpr hl
   unfold inScope
   simp [ht]
@@ -199,10 +228,10 @@ theorem symlinks_not_scanned (r : Request) (e : Entry) (h : e.ftype = .symlink) 
 
 /-- nothing below a symlinked directory is reached by any planner: `follow_links` is never switched on -/
 theorem symlinks_not_followed (r : Request) (e : Entry) (a : RelPath) (n : Name) (b : RelPath)
-    (hp : e.path = a ++ n :: b) (hb : b ≠ []) (ht : r.ty (a ++ [n]) = .symlink) : outOfScope r e := by
+    (hp : e.path = a ++ n :: b) (hb : b ≠ []) (ht : r.site.ty (a ++ [n]) = .symlink) : outOfScope r e := by
   apply outOfScope_of_not_walked
   rw [hp]
-  apply walked_false_below_symlink _ _ _ _ a n b hb _ ht
+  apply walked_false_below_symlink _ _ a n b hb _ ht
   have := cfg_all Gen.walker (fun c => !c.followLinks) (by decide) (P.W.effectiveLevel r.respectGitignore r.level)
   have h2 : (Gen.walker.cfg (P.W.effectiveLevel r.respectGitignore r.level)).followLinks = false := by simpa using this
   exact h2
@@ -218,14 +247,35 @@ def linkEntry : Entry := { path := [b!"link.txt"], ftype := .symlink, linkToFile
 /-- today: `create_simple_plan` uses `Path::is_file`, which follows the link -/
 theorem simple_symlinks_or_witness :
     Gen.simplePlanFollowsSymlinks = false ∨
-    (inScopeSimple P { bareRequest 0 with ty := fun _ => .symlink } linkEntry = true ∧
-     inScope P { bareRequest 0 with ty := fun _ => .symlink } linkEntry = false) := by decide
+    (inScopeSimple P { bareRequest 0 with site := { (bareRequest 0).site with ty := fun _ => .symlink } } linkEntry = true ∧
+     inScope P { bareRequest 0 with site := { (bareRequest 0).site with ty := fun _ => .symlink } } linkEntry = false) := by decide
 
 -- include / exclude globs ------------------------------------------------------------------------------------------------------
 
+/-- The `replace` planner hands the path relative to its FIRST search path to the glob sets; for the first (or only)
+    path that is the entry's own relative path — the hypothesis `hs` of the three theorems below. -/
+theorem simpleGlobPath_first (r : Request) (e : Entry) (h : r.firstRoot = true) : simpleGlobPath P r e = e.path := by
+  simp [simpleGlobPath, h]
+
+theorem simpleGlobPath_fixed (hfix : Gen.simpleGlobsFirstRootOnly = false) (r : Request) (e : Entry) :
+    simpleGlobPath P r e = e.path := by
+  simp [simpleGlobPath, P, Gen.pipeline, hfix]
+
+/-- today: under a second search path `--exclude vendor` does not stop `replace` from planning `vendor/lib/foo_bar.rs`
+    (the glob sees the absolute path), while `plan` leaves it out -/
+def secondPathRequest : Request :=
+  { bareRequest 0 with
+    globs := { includes := [], excludes := [b!"vendor"] }
+    firstRoot := false
+    absPrefix := [[], b!"home", b!"sub"] }
+
+theorem C09_witness_replace_globs_first_path_only :
+    Gen.simpleGlobsFirstRootOnly = false ∨
+    (inScopeSimple P secondPathRequest vendored = true ∧ inScope P secondPathRequest vendored = false) := by decide
+
 /-- an entry matched by an `--exclude` pattern is out of scope of all planners -/
-theorem excluded_glob_out (r : Request) (e : Entry) (pat : Bytes) (hm : pat ∈ r.globs.excludes)
-    (hg : r.gm pat (joinPath e.path) = true) : outOfScope r e := by
+theorem excluded_glob_out (r : Request) (e : Entry) (pat : Bytes) (hs : simpleGlobPath P r e = e.path)
+    (hm : pat ∈ r.globs.excludes) (hg : r.gm pat (joinPath e.path) = true) : outOfScope r e := by
   have hne : r.globs.excludes.isEmpty = false := by cases h : r.globs.excludes <;> simp_all
   have : globsOk P.G r.gm r.globs e.path = false := by
     unfold globsOk
@@ -237,10 +287,11 @@ theorem excluded_glob_out (r : Request) (e : Entry) (pat : Bytes) (hm : pat ∈ 
       exact ⟨pat, hm, by split <;> simp⟩
     simp [this, hne]
   unfold outOfScope inScope inScopeSimple renameCandidate
-  simp [this]
+  simp [this, hs]
 
 /-- `build_globset`'s directory rule: `--exclude vendor` (or `vendor/`) also excludes what `vendor/**` matches -/
-theorem excluded_dir_contents_out (r : Request) (e : Entry) (pat : Bytes) (hm : pat ∈ r.globs.excludes)
+theorem excluded_dir_contents_out (r : Request) (e : Entry) (pat : Bytes) (hs : simpleGlobPath P r e = e.path)
+    (hm : pat ∈ r.globs.excludes)
     (hd : looksLikeDir Gen.globPlainChars pat = true) (hg : r.gm (recursivePattern pat) (joinPath e.path) = true) :
     outOfScope r e := by
   have hne : r.globs.excludes.isEmpty = false := by cases h : r.globs.excludes <;> simp_all
@@ -257,10 +308,10 @@ theorem excluded_dir_contents_out (r : Request) (e : Entry) (pat : Bytes) (hm : 
       rw [if_pos this]; simp
     simp [this, hne]
   unfold outOfScope inScope inScopeSimple renameCandidate
-  simp [this]
+  simp [this, hs]
 
 /-- with `--include`, an entry no (expanded) include pattern matches is out of scope -/
-theorem not_included_out (r : Request) (e : Entry) (hne : r.globs.includes ≠ [])
+theorem not_included_out (r : Request) (e : Entry) (hs : simpleGlobPath P r e = e.path) (hne : r.globs.includes ≠ [])
     (hno : ∀ pat ∈ expandPatterns P.G.expands P.G.plain r.globs.includes, r.gm pat (joinPath e.path) = false) :
     outOfScope r e := by
   have h1 : r.globs.includes.isEmpty = false := by cases h : r.globs.includes <;> simp_all
@@ -268,7 +319,7 @@ theorem not_included_out (r : Request) (e : Entry) (hne : r.globs.includes ≠ [
     rw [List.any_eq_false]; intro p hp; simp [hno p hp]
   have : globsOk P.G r.gm r.globs e.path = false := by unfold globsOk; simp [h1, h2]
   unfold outOfScope inScope inScopeSimple renameCandidate
-  simp [this]
+  simp [this, hs]
 
 /-- non-vacuity with the concrete matcher: `vendor` excludes `vendor/lib/foo_bar.rs`, `vend` does not;
     `**/*.md` includes only markdown -/
@@ -351,8 +402,8 @@ theorem C09_witness_rgignore_not_honoured :
 
 theorem C09_witness_replace_follows_symlinks :
     Gen.simplePlanFollowsSymlinks = false ∨
-    (inScopeSimple P { bareRequest 0 with ty := fun _ => .symlink } linkEntry = true ∧
-     inScope P { bareRequest 0 with ty := fun _ => .symlink } linkEntry = false) := simple_symlinks_or_witness
+    (inScopeSimple P { bareRequest 0 with site := { (bareRequest 0).site with ty := fun _ => .symlink } } linkEntry = true ∧
+     inScope P { bareRequest 0 with site := { (bareRequest 0).site with ty := fun _ => .symlink } } linkEntry = false) := simple_symlinks_or_witness
 
 /-- the rename planners never look at content: a binary file whose name carries the term is a rename candidate at every
     level although its content is out of scope below level 3 (strict reading of the property text: a finding) -/
